@@ -27,7 +27,7 @@ func init() {
 	mc.Def(mc.Check{
 		ID:    "C15",
 		Level: "exploration",
-		Rule: "A: column counts {1,2,3,255,256,400,1024} x name lengths {1,31,32,33,64,255,256} bytes on 1Min and 1D (type i4), plus names of {30,32,33,34,96} bytes made of 3-byte UTF-8 runes; B: every type x every timeframe (2 columns, 4-byte names); " +
+		Rule: "A: column counts {1,2,3,255,256,400,1024} x name lengths {1,31,32,33,64,255,256} bytes (thorough: 12 counts x 14 lengths) on 1Min and 1D (type i4), plus names of {30,32,33,34,96} bytes made of 3-byte UTF-8 runes; B: every type x every timeframe (2 columns, 4-byte names); " +
 			"each x {fixed,variable} x created by explicit create / by the first write x later write {none, mid-year row, row in the first interval of the year}; then a restart on the same device. " +
 			"creation rejected, or the restarted server reports exactly the created names, types, timeframe and record type, accepts a write with that schema and rejects one with another. non-trivial = creation accepted",
 		Assume:   []string{"UTC", "BackgroundSync=false", "virtual clock in 2021: explicit create makes the 2021 file"},
@@ -43,8 +43,12 @@ func c15Enum(c *mc.Ctx, yield func(c15Spec)) {
 				if bw && wr == "none" {
 					continue
 				}
-				for _, nc := range []int{1, 2, 3, 255, 256, 400, 1024} {
-					for _, nl := range []int{1, 31, 32, 33, 64, 255, 256} {
+				ncs, nls := []int{1, 2, 3, 255, 256, 400, 1024}, []int{1, 31, 32, 33, 64, 255, 256}
+				if c.Thorough() {
+					ncs, nls = []int{1, 2, 3, 4, 16, 64, 128, 254, 255, 256, 400, 1024}, []int{1, 2, 16, 30, 31, 32, 33, 34, 64, 100, 128, 254, 255, 256}
+				}
+				for _, nc := range ncs {
+					for _, nl := range nls {
 						if nl == 1 && nc > 26 {
 							continue
 						}
@@ -103,6 +107,15 @@ func c15Run(c *mc.Ctx, s c15Spec) {
 			n = base + strings.Repeat("語", k)
 			names[i] = n + strings.Repeat("x", s.NameLen-len(n))
 		}
+	}
+	uniq := map[string]bool{}
+	for _, n := range names {
+		uniq[n] = true
+	}
+	if len(uniq) != len(names) {
+		c.Eval(fmt.Sprint(s), false)
+		c.Outcome("skipped:names-not-unique") // the generator cannot make that many distinct names of this length
+		return
 	}
 	types := make([]string, s.NCols)
 	for i := range types {
